@@ -4,7 +4,7 @@ import zlib
 
 from hypothesis import strategies as st
 
-from pv import streams
+from pv import core, streams
 from pv.core import Fail, Res, Sub, digest
 from pv.doubles import ScriptedSocket
 
@@ -64,6 +64,7 @@ def encode(case):
     out = bytearray()
     spans = []
     for i, ch in enumerate(case["chunks"]):
+        core.note_input(len(ch) // 2)  # decoded size: the library has to walk what the compressed chunk expands to
         body = compress(bytes.fromhex(ch), case["enc"], case.get("wbits", 15), case.get("level", 6))
         hx = f"{len(body):x}"
         style = case["hexcase"][i % len(case["hexcase"])]
@@ -299,6 +300,55 @@ def e_big(tier, shard, nshards):
                 yield {"chunks": [(blk * 3).hex(), b"tail".hex()], "enc": enc, "hexcase": [0], "terminator": True, "mode": "generated", "cuts": [100, 2000], "bufsize": 4096, "gaps": [], "longdist": dist}
 
 
+# ------------------------------------------------------------------ well-formed chunks around one undecodable chunk
+def o_after_bad(case):
+    """a chunk whose body is not a valid compressed stream has no decoded body, so the statement is silent about
+    what is delivered for it - but the well-formed chunks before and after it still have theirs"""
+    enc = case["enc"]
+    chunks = [bytes.fromhex(c) for c in case["chunks"]]
+    bad = case["bad"] % (len(chunks) + 1)
+    junk = bytes.fromhex(case["junk"])
+    if not junk:
+        return Res(False, ["empty-junk"])  # a chunk of size 0 is the last-chunk marker, not an undecodable chunk
+    try:
+        decompress(junk, enc)
+        return Res(False, ["junk-happens-to-decode"])
+    except zlib.error:
+        pass
+    out = bytearray()
+    bodies = [compress(c, enc) for c in chunks]
+    bodies.insert(bad, junk)
+    for b in bodies:
+        core.note_input(len(b))
+        out += f"{len(b):x}".encode() + b"\r\n" + b + b"\r\n"
+    if case["terminator"]:
+        out += b"0\r\n\r\n"
+    encoded = bytes(out)
+    pre, post = b"".join(chunks[:bad]), b"".join(chunks[bad:])
+    cuts = [c for c in case["cuts"] if 0 < c < len(encoded)]
+    try:
+        got = deliver(encoded, cuts, enc, case["bufsize"])
+    except Fail:
+        raise
+    except Exception as e:  # pylint: disable=broad-except
+        raise Fail(f"read-raised-{type(e).__name__}", f"undecodable chunk #{bad}: {type(e).__name__}: {e}") from e
+    if not got.startswith(pre):
+        raise Fail("chunks-before-undecodable-chunk-lost", f"enc {enc}: {len(chunks[:bad])} well-formed chunks ({len(pre)} bytes) precede the undecodable chunk, delivered stream starts {got[:40]!r}")
+    if not got.endswith(post) or len(got) < len(pre) + len(post):
+        raise Fail("chunks-after-undecodable-chunk-not-decoded", f"enc {enc}: {len(chunks[bad:])} well-formed chunks ({len(post)} bytes) follow the undecodable chunk #{bad} but the delivered stream ({len(got)} bytes) does not end with their decoded bodies")
+    return Res(nontrivial=bool(post), classes=[f"enc-{enc}", "good-chunks-after" if post else "bad-chunk-last", "good-chunks-before" if pre else "bad-chunk-first"])
+
+
+@st.composite
+def s_after_bad(draw, tier):
+    enc = draw(st.sampled_from(["gzip", "compress", "deflate", "gzip+deflate"]))
+    chunks = draw(st.lists(_DATA, min_size=1, max_size=5))
+    junk = draw(st.one_of(st.binary(min_size=1, max_size=40), st.sampled_from(chunks).map(lambda c: compress(c, enc)[:-3]), st.sampled_from(chunks).map(lambda c: b"\x00" + compress(c, enc))))
+    case = {"chunks": [c.hex() for c in chunks], "enc": enc, "bad": draw(st.integers(0, 5)), "junk": junk.hex(), "terminator": draw(st.booleans()), "bufsize": draw(st.sampled_from([1, 16, 64, 4096, 4096]))}
+    case["cuts"] = draw(streams.partitions(200))
+    return case
+
+
 def _short(c):
     c = dict(c)
     c["chunks"] = [x[:60] + ("..." if len(x) > 60 else "") for x in c["chunks"]]
@@ -317,5 +367,6 @@ SUBS = [
         need={"cut-in-size-line": 1, "cut-in-chunk-data": 1, "cut-inside-terminating-crlf": 1, "cut-between-data-and-crlf": 1, "enc-gzip": 1, "enc-deflate": 1, "enc-compress": 1, "all_partitions": 1, "small-compression-window": 1, "layered-compression": 1, "timeouts-between-receives": 1, "chunk-decoding-to-more-than-1MiB": 1},
         sample=_short,
     ),
+    Sub("good_chunks_around_undecodable_chunk", o_after_bad, strategy=s_after_bad, examples=(40, 1200), rule="at least one well-formed compressed chunk follows the undecodable one", need={"good-chunks-after": 1, "good-chunks-before": 1}, sample=_short),
     __import__("pv.fuzz.campaign", fromlist=["make"]).make("C12", ("C12",), runs=(15000, 400000), shards=(4, 16)),
 ]
